@@ -55,6 +55,11 @@ def check(run):
     st = run.explore('compound messages of 2..3 units out of 4 queries, a command, an undefined header and a rejected query, with and without a trailing ";": responses in execution order, each followed by its own newline and flush before the next unit writes',
                      COMP + ({'k': 3},), 600)
     records.extend(st['records'])
+    # exactly one response per executed query also when the messages arrive through process (no duplicates, nothing left in the buffer)
+    LIB = ('mirsym.checks.process_level', 'LibraryProcess')
+    st = run.explore('through process::<16>: streams of 1..2 library messages (answered / failing queries, commands, a query in front of a payload newline), whole, byte-wise, one and two cuts: '
+                     'the bytes written are exactly the responses of the successful queries, once each', LIB + ({'k': 2, 'N': 16, 'max_len': 16},), 1200)
+    records.extend(st['records'])
     st = run.explore('no-output cases: command, handler error (custom / unit), rejected argument, undefined header, query on a command', NOOUT + ({},), 300)
     records.extend(st['records'])
     viol = {}
@@ -84,6 +89,9 @@ def confirm(run, v):
     import re
     detail = {}
     ok_all = False      # reproduced in the dev or the release profile (both recorded)
+    if v['rule'] == 'LIBRARY':
+        from ..checks.process_level import confirm_library
+        return confirm_library(run, v)
     for rel in (False, True):
         if v['rule'] == 'COMPOUND':
             o = run.native([{'entry': 'run', 'device': 'TR', 'input': v['input'], 'cap': None}], release=rel)[0]
